@@ -91,7 +91,7 @@ func (c *Ctx) helperSummary(h *ssa.Function, mode string) []fact {
 	g := c.guardsOf(h)
 	var acc map[fact]bool
 	first := true
-	for _, b := range h.Blocks {
+	for _, b := range blocksOf(h) {
 		ret, ok := b.Instrs[len(b.Instrs)-1].(*ssa.Return)
 		if !ok || len(ret.Results) == 0 {
 			continue
